@@ -127,6 +127,18 @@ class Exec:
         loops.sort(key=lambda n: (n.lineno, n.col_offset))
         for i, n in enumerate(loops):
             self.loop_ord[id(n)] = i + 1
+        # ordinal (source order) of each assignment statement to a plain name: key of the after_assign ghost clauses
+        self.assign_ord = {}
+        seen = {}
+        assigns = [n for n in ast.walk(ast.Module(body=self.body, type_ignores=[]))
+                   if isinstance(n, ast.Assign) and len(n.targets) == 1 and isinstance(n.targets[0], ast.Name)]
+        assigns.sort(key=lambda n: (n.lineno, n.col_offset))
+        for n in assigns:
+            seen[n.targets[0].id] = seen.get(n.targets[0].id, 0) + 1
+            self.assign_ord[id(n)] = (n.targets[0].id, seen[n.targets[0].id])
+        for key in getattr(self.contract, 'after_assign', {}):
+            if key not in self.assign_ord.values():
+                raise TargetMissing('after_assign%r: no such assignment in %s' % (key, qualname))
         self.old = None
         self.spec_mode = False
         self.loop_exit = {}
@@ -229,6 +241,8 @@ class Exec:
             return SVal('int', self.to_int(v))
         if kind == 'bool' and v.kind == CONST and isinstance(v.t, bool):
             return SVal('bool', z3.BoolVal(v.t))
+        if kind == 'T3' and v.kind == CONST and isinstance(v.t, tuple) and len(v.t) == 3 and all(type(x) is int for x in v.t):
+            return SVal('T3', self.th.T3.mk3(*[z3.IntVal(x) for x in v.t]))
         if kind == 'T3' and isinstance(v.kind, tuple) and v.kind[0] == 'tuple' and len(v.t) == 3:
             return SVal('T3', self.th.T3.mk3(*[self.to_int(x) for x in v.t]))
         if kind == 'E' and v.kind == 'ME' or kind == 'ME' and v.kind == 'E':
@@ -425,6 +439,8 @@ class Exec:
                 k = v.kind
         if k is None:
             k = 'int' if all(isinstance(v.t, int) for v in vals) else None
+        if k is None and all(isinstance(v.t, tuple) and len(v.t) == 3 and all(type(x) is int for x in v.t) for v in vals):
+            k = 'T3'
         if k is None:
             raise OutOfSubset('list literal of constants')
         if isinstance(k, tuple) and k[0] == 'tuple' and len(k) == 4:
@@ -912,7 +928,16 @@ class Exec:
                 continue
             if not (isinstance(gen.iter, ast.Call) and getattr(gen.iter.func, 'id', None) == 'range'
                     and isinstance(gen.target, ast.Name)):
-                raise OutOfSubset('quantifier domain must be range(...) or STR')
+                # iteration over a sequence value: a bound position, the target bound to the element there
+                src = self.ev(gen.iter, st2)
+                if isinstance(src.kind, tuple) and src.kind[0] == 'seq':
+                    v = z3.Int('q!%d' % next(self.counter))
+                    sth = self.seqth(src.kind)
+                    bound.append(v)
+                    conds.append(z3.And(0 <= v, v < sth.len(src.t)))
+                    self.bind_target(gen.target, self.wrap_elem(src.kind[1], sth.idx(src.t, v)), st2)
+                    continue
+                raise OutOfSubset('quantifier domain must be range(...), STR or a sequence')
             v = z3.Int('%s!%d' % (gen.target.id, next(self.counter)))
             args = [self.to_int(self.ev(a, st2)) for a in gen.iter.args]
             lo, hi = (z3.IntVal(0), args[0]) if len(args) == 1 else (args[0], args[1])
@@ -920,6 +945,8 @@ class Exec:
             conds.append(z3.And(lo <= v, v < hi))
             st2.env[gen.target.id] = SVal('int', v)
         save = self.spec_mode
+        # obligations raised while evaluating the body (subscripts in executable `all(...)`) hold under the domain conditions
+        st2.guards = st2.guards + list(conds)
         body = self.zbool(self.truth(self.ev(g.elt, st2)))
         pats = None
         for kw in node.keywords:
@@ -972,11 +999,22 @@ class Exec:
             args, kwargs = self.args_of(node, st)
             c = self.reg.contracts[q]
             # kind variants: a second contract of the same real function for other parameter kinds, keyed `<qualname>#<tag>`
-            for vq, vc in self.reg.contracts.items():
-                if vq.startswith(q + '#'):
-                    mism = [i for i, (a, p) in enumerate(zip(args, c.params)) if a.kind in ('str', 'int') and p[1] in ('str', 'int')
-                            and a.kind != p[1]]
-                    if mism and all(args[i].kind == vc.params[i][1] for i in mism):
+            def fits(cand):
+                for i, (pname, pkind, dflt) in enumerate(cand.params):
+                    a = args[i] if i < len(args) else kwargs.get(pname)
+                    none_arg = a is None or (a.kind == CONST and a.t is None)
+                    if pkind == ('const',):
+                        if not none_arg:
+                            return False
+                    elif none_arg:
+                        if a is not None or dflt is None:
+                            return False
+                    elif a.kind in ('str', 'int') and pkind in ('str', 'int') and a.kind != pkind:
+                        return False
+                return True
+            if not fits(c):
+                for vq, vc in self.reg.contracts.items():
+                    if vq.startswith(q + '#') and fits(vc):
                         c = vc
                         break
             if c.inline:
@@ -1416,6 +1454,24 @@ class Exec:
                 self.bind_target(t, val, st)
             else:
                 self.store(t, val, st)
+        key = self.assign_ord.get(id(node))
+        clauses = getattr(self.contract, 'after_assign', {}).get(key) if key else None
+        if clauses and not getattr(self, 'inline_of', None):
+            self.spec_mode = True
+            try:
+                for cl in clauses:
+                    if cl[0] == 'let':
+                        st.env[cl[1]] = self.ev(cl[2], st)        # ghost snapshot; dropped at loop heads (havoc_loop)
+                    elif cl[0] == 'check':
+                        g = self.zbool(self.truth(self.ev(cl[1], st)))
+                        self.spec_mode = False
+                        self.oblige(st, 'ghost-check', node, g, 'check after %s := ... (#%d): %s' % (key[0], key[1], cl[2]))
+                        self.spec_mode = True
+                        self.assume(st, g)
+                    else:
+                        self.assume_hint(cl[1], cl[2], st)
+            finally:
+                self.spec_mode = False
         return [('next', st, None)]
 
     def st_AugAssign(self, node, st):
@@ -1540,6 +1596,13 @@ class Exec:
         names = self.assigned_names(body) | set(extra)
         self._last_havoc = names
         rebound = self.assigned_names(body, rebinding_only=True) | set(extra)
+        # ghost snapshots taken by after_assign clauses inside this loop are not available at its head
+        inner = {id(n) for n in ast.walk(ast.Module(body=list(body), type_ignores=[]))}
+        for nid, key in self.assign_ord.items():
+            if nid in inner:
+                for cl in getattr(self.contract, 'after_assign', {}).get(key, ()):
+                    if cl[0] == 'let':
+                        st.env.pop(cl[1], None)
         for nme in sorted(names):
             if nme in st.env:
                 v = st.env[nme]
